@@ -41,6 +41,7 @@ class SurfaceSubdivision(Logger):
         self.mesh = mesh
 
     def __enter__(self):
+        self._input = self.mesh
         self.mesh = RawMeshData(self.mesh)
         self.mesh.face_corners.clear()
         return self
@@ -48,6 +49,13 @@ class SurfaceSubdivision(Logger):
     def __exit__(self, exc_type, exc_val, exc_tb):
         self.mesh.prepare()
         self.mesh = _instanciate_raw_mesh_data(self.mesh, 2)
+        # the mesh object given to the editor is modified in place: hand it the new containers and reset its caches,
+        # so that it is never left with cleared corners or connectivity describing the old mesh
+        inp = self._input
+        inp.vertices, inp.edges, inp.faces, inp.face_corners = self.mesh.vertices, self.mesh.edges, self.mesh.faces, self.mesh.face_corners
+        inp.connectivity.clear()
+        inp.clear_boundary_data()
+        inp._is_triangular, inp._is_quad = None, None
 
     @allowed_mesh_types(SurfaceMesh)
     def triangulate_face(self, face_id: int) :
@@ -248,6 +256,7 @@ class VolumeSubdivision(Logger):
         self.conn = None # connectivity
 
     def __enter__(self):
+        self._input = self.mesh
         self.conn = self.mesh.connectivity
         self.conn._compute_cell_adj()
         self.mesh = RawMeshData(self.mesh)
@@ -259,6 +268,16 @@ class VolumeSubdivision(Logger):
     def __exit__(self, exc_type, exc_value, tb):
         self.mesh.prepare()
         self.mesh = _instanciate_raw_mesh_data(self.mesh, 3)
+        # the mesh object given to the editor is modified in place: hand it the new containers and reset its caches,
+        # so that it is never left with cleared corners or connectivity describing the old mesh
+        inp = self._input
+        inp.vertices, inp.edges, inp.faces, inp.face_corners = self.mesh.vertices, self.mesh.edges, self.mesh.faces, self.mesh.face_corners
+        inp.cells, inp.cell_corners, inp.cell_faces = self.mesh.cells, self.mesh.cell_corners, self.mesh.cell_faces
+        inp.connectivity.clear()
+        inp._boundary_faces = inp._interior_faces = None
+        inp._is_vertex_on_border = inp._boundary_vertices = inp._interior_vertices = None
+        inp._is_edge_on_border = inp._boundary_edges = inp._interior_edges = None
+        inp.boundary_connectivity = None
 
     def split_cell_as_fan(self, cell_id:int):
         """
